@@ -182,7 +182,7 @@ func runC11(c *eng.Ctx) {
 	c.Rule("PASS", "tsdb/memdb.memoryDatabase.FlushFamilyTo{one entry per field}", func() {
 		f := c.Fn("tsdb/memdb.memoryDatabase.FlushFamilyTo")
 		var body *ssa.Function
-		for _, cl := range eng.Closures(f) {
+		for _, cl := range closuresT(f) {
 			if len(p.Sites(cl, eng.CallTo("tsdb/memdb.flushFieldTo"))) > 0 {
 				body = cl
 			}
@@ -569,6 +569,20 @@ func aggregateArgumentOrder(c *eng.Ctx) {
 	for _, s := range p.SitesInProgram(eng.AnyCallTo("series/field.AggType.Aggregate")) {
 		top := topFunc(c, s.Fn)
 		r, ok := table[top]
+		if !ok {
+			// an unclassified helper with a single (transparent) call site belongs to its caller
+			g := s.Fn
+			for g.Parent() != nil {
+				g = g.Parent()
+			}
+			if callers := p.StaticCallers(g); len(callers) == 1 {
+				if cl, isCall := callers[0].Instr.(*ssa.Call); isCall && eng.TransparentCallee(cl) == g {
+					if r2, ok2 := table[topFunc(c, callers[0].Fn)]; ok2 {
+						top, r, ok = topFunc(c, callers[0].Fn), r2, true
+					}
+				}
+			}
+		}
 		n++
 		if !ok {
 			c.Check(false, "site-classified:"+top, s.Instr, s.Fn, "every call of AggType.Aggregate is classified (which argument is the stored value, which the incoming one)", "unclassified call site in "+top)
